@@ -28,6 +28,7 @@ import (
 	"github.com/libp2p/go-libp2p/core/peer"
 
 	"github.com/ipfs/go-graphsync"
+	"github.com/ipfs/go-graphsync/ipldutil"
 	"github.com/ipfs/go-graphsync/listeners"
 	gsmsg "github.com/ipfs/go-graphsync/message"
 	"github.com/ipfs/go-graphsync/messagequeue"
@@ -121,6 +122,8 @@ type rig struct {
 	strTag  map[any]uint64       // response stream -> tag of its incarnation (0: not created by newRequest's hook path)
 	subInfo map[any][2]uint64    // subscriber -> (peer, tag)
 	counts  []int                // inProgressRequestCount values seen by the processing listener (not compared)
+	holdArmed [2]uint64               // (peer, id) whose next FinishTask is to be held
+	held      map[[2]uint64]heldFinish // FinishTask calls being held
 }
 
 func (r *rig) rec(id uint64, format string, a ...any) {
@@ -262,13 +265,66 @@ func (a recRA) NewStream(ctx context.Context, p peer.ID, id graphsync.RequestID,
 
 // ---- manager wrapper handed to the executor (only to learn nothing: plain delegation) ----
 
+// gateMgr is the manager the executor talks to: plain delegation, except that FinishTask can be held
+// between the executor's return and the manager's loop (the worker goroutine is simply slow there),
+// so that a "sent" report retires the entry first and the id is reused before finishTask runs
+type gateMgr struct{ r *rig }
+
+func (g gateMgr) StartTask(task *peertask.Task, p peer.ID, c chan<- queryexecutor.ResponseTask) {
+	g.r.rm.StartTask(task, p, c)
+}
+func (g gateMgr) GetUpdates(id graphsync.RequestID, c chan<- []gsmsg.GraphSyncRequest) {
+	g.r.rm.GetUpdates(id, c)
+}
+func (g gateMgr) FinishTask(task *peertask.Task, p peer.ID, err error) {
+	r := g.r
+	k := [2]uint64{peerNum(p), r.idNum[task.Topic.(graphsync.RequestID)]}
+	r.mu.Lock()
+	armed := r.holdArmed == k
+	var rel chan struct{}
+	if armed {
+		r.holdArmed = [2]uint64{}
+		rel = make(chan struct{})
+		r.held[k] = heldFinish{rel, errCode(err)}
+	}
+	r.mu.Unlock()
+	if armed {
+		r.parkCh <- parkMsg{true, execKey{}}
+		<-rel
+	}
+	r.rm.FinishTask(task, p, err)
+}
+
+type heldFinish struct {
+	rel  chan struct{}
+	code int
+}
+
+// errCode classifies the error an executor hands to FinishTask: 0 nil, 1 paused, 2 requestor cancel,
+// 3 network error, 4 cancelled by command, 5 anything else (hook error)
+func errCode(err error) int {
+	switch {
+	case err == nil:
+		return 0
+	case errors.As(err, &hooks.ErrPaused{}):
+		return 1
+	case ipldutil.IsContextCancelErr(err):
+		return 2
+	case err == queryexecutor.ErrNetworkError:
+		return 3
+	case err == queryexecutor.ErrCancelledByCommand:
+		return 4
+	}
+	return 5
+}
+
 func newRig() *rig {
 	ctx, cancel := context.WithCancel(context.Background())
 	r := &rig{ctx: ctx, cancel: cancel,
 		tqs: map[[2]uint64]*taskqueue.WorkerTaskQueue{}, chain: dag.Chain(chainN),
 		idNum: map[graphsync.RequestID]uint64{}, tagNum: map[string]uint64{},
 		parkCh: make(chan parkMsg, 4), gates: map[execKey]chan release{},
-		msgs: map[[2]uint64][]*capMsg{}, hookTag: map[[2]uint64]uint64{},
+		msgs: map[[2]uint64][]*capMsg{}, held: map[[2]uint64]heldFinish{}, hookTag: map[[2]uint64]uint64{},
 		strTag: map[any]uint64{}, subInfo: map[any][2]uint64{}}
 	for n := uint64(1); n <= nIDs; n++ {
 		r.idNum[reqID(n)] = n
@@ -370,7 +426,7 @@ func newRig() *rig {
 	ra := responseassembler.New(ctx, capHandler{r})
 	r.rm = responsemanager.New(ctx, store.LinkSystem(), recRA{r, ra}, procL, reqHooks, updHooks, complL, cancL, sentL, netL,
 		recConn{r}, 0, nil, multiTQ{r})
-	r.qe = queryexecutor.New(ctx, r.rm, blkHooks, updHooks)
+	r.qe = queryexecutor.New(ctx, gateMgr{r}, blkHooks, updHooks)
 	r.rm.Startup()
 	return r
 }
@@ -623,11 +679,38 @@ func (r *rig) runOps(ops []op) ([]step, error) {
 				continue
 			}
 			r.unpark(k)
+			if o.Hold {
+				r.mu.Lock()
+				r.holdArmed = [2]uint64{k.Pid, k.ID}
+				r.mu.Unlock()
+			}
 			g <- release{o.Bh, o.Ext}
 			if err := r.waitParkOrDone(); err != nil {
 				return out, err
 			}
-			emit(fmt.Sprintf("LStep %d %d %d %s %s", k.Pid, k.ID, k.Tag, bresName[o.Bh%3], cw.Bool(o.Ext)))
+			r.mu.Lock()
+			r.holdArmed = [2]uint64{}
+			_, isHeld := r.held[[2]uint64{k.Pid, k.ID}]
+			r.mu.Unlock()
+			name := "LStep"
+			if isHeld {
+				name = "LStepH" // the executor returned, its FinishTask has not reached the manager yet
+			}
+			emit(fmt.Sprintf("%s %d %d %d %s %s", name, k.Pid, k.ID, k.Tag, bresName[o.Bh%3], cw.Bool(o.Ext)))
+		case "finish":
+			hk := [2]uint64{o.P, o.ID}
+			r.mu.Lock()
+			h, ok := r.held[hk]
+			delete(r.held, hk)
+			r.mu.Unlock()
+			if !ok {
+				continue
+			}
+			close(h.rel)
+			if err := r.waitParkOrDone(); err != nil {
+				return out, err
+			}
+			emit(fmt.Sprintf("LFinish %d %d %d", o.P, o.ID, h.code))
 		case "notify":
 			// the oldest message built for (peer, request id) that has not been reported yet
 			mk := [2]uint64{o.P, o.ID}
@@ -699,6 +782,16 @@ func (r *rig) waitParkOrDone() error { return r.waitPark() }
 // drainExecutors releases every parked executor with an error result so that no goroutine is left
 // blocked when the case ends (not part of the recorded history)
 func (r *rig) drainExecutors() {
+	r.mu.Lock()
+	hs := r.held
+	r.held = map[[2]uint64]heldFinish{}
+	r.mu.Unlock()
+	for _, h := range hs {
+		close(h.rel)
+		if r.waitPark() != nil {
+			return
+		}
+	}
 	for i := 0; i < 64; i++ {
 		r.mu.Lock()
 		if len(r.parked) == 0 {
